@@ -149,19 +149,19 @@ Definition emit_app (me : side) (s : sidest) (p : N) : sidest * list event :=
   | (s', None) => (s', [])
   end.
 
-(* startKeyUpdate / buildKeyUpdateFlight *)
+(* startKeyUpdate / buildKeyUpdateFlight (ErrEpochOverflow, ErrHandshakeSequenceOverflow,
+   ErrSequenceNumberOverflow all end the state machine; a failed side is frozen, so the partial
+   updates the code performs before returning the error are not represented) *)
 Definition start_ku (me : side) (s : sidest) (req : bool) (id : option N) : sidest * list event :=
-  if (w_epoch s =? max_epoch) || (max_msg <? hs_send s) then (set_failed s, [EvFail me])
+  if (w_epoch s =? max_epoch) || (max_msg <? hs_send s) || (max_seq48 <? w_seq s)
+  then (set_failed s, [EvFail me])
   else
     let m := hs_send s in
-    let s1 := mkside (failed s) (w_epoch s) (w_sec s) (w_seq s) (m + 1) (pending s) (queue s)
-                     (r_epoch s) (r_gens s) (hs_recv s) (wins s) (futq s) (seen s) (got s) in
-    match emit_ctl me s1 (KU m req) with
-    | (s2, evs, Some q) =>
-        (set_pending s2 (Some (mkflight m req id [q])),
-         evs ++ match id with Some i => [EvStart me i m] | None => [] end)
-    | (s2, evs, None) => (s2, evs)
-    end.
+    let q := w_seq s in
+    (mkside (failed s) (w_epoch s) (w_sec s) (q + 1) (m + 1) (Some (mkflight m req id [q])) (queue s)
+            (r_epoch s) (r_gens s) (hs_recv s) (wins s) (futq s) (seen s) (got s),
+     EvSent me (w_epoch s) (mkrec (w_sec s) (low2 (w_epoch s)) q (KU m req))
+       :: match id with Some i => [EvStart me i m] | None => [] end).
 
 (* startQueuedPostHandshake: FIFO; a KeyUpdate command waits while a flight is active, application
    data at the head of the queue does not *)
